@@ -12,6 +12,9 @@ R05.4 exponentiator option table is exhaustive
 
 Added in build round 2 (see DESIGN.md section 3, round-2 table):
 R05.5 P(t) is a function of t alone: in every exponentiator class, __call__ and the self-methods it calls assign no instance attribute (state computed in ...
+
+Added later in build rounds 2-3 (see DESIGN.md section 3, round-2/3 table):
+R05.6 GeneralStationary keeps pi stationary by construction: each last-in-column rate is SOLVED from the balance equation (row_total - col_total) / pi_i ...
 """
 
 from __future__ import annotations
